@@ -65,9 +65,9 @@ impl Thread {
 
         thread.thread_index = j_obj
             .get("threadIndex")
-            .and_then(|i| i.as_i64())
-            .ok_or(StoryError::BadJson("Invalid thread index".to_owned()))?
-            as usize;
+            .and_then(|i| i.as_u64())
+            .and_then(|i| usize::try_from(i).ok())
+            .ok_or(StoryError::BadJson("Invalid thread index".to_owned()))?;
 
         if let Some(j_thread_callstack) = j_obj
             .get("callstack")
@@ -78,9 +78,9 @@ impl Thread {
                     let push_pop_type = PushPopType::from_value(
                         j_element_obj
                             .get("type")
-                            .and_then(|t| t.as_i64())
-                            .ok_or(StoryError::BadJson("Invalid push/pop type".to_owned()))?
-                            as usize,
+                            .and_then(|t| t.as_u64())
+                            .and_then(|t| usize::try_from(t).ok())
+                            .ok_or(StoryError::BadJson("Invalid push/pop type".to_owned()))?,
                     )?;
 
                     let mut pointer = pointer::NULL.clone();
@@ -98,8 +98,8 @@ impl Thread {
                         let pointer_index = j_element_obj
                             .get("idx")
                             .and_then(|i| i.as_i64())
-                            .ok_or(StoryError::BadJson("Invalid pointer index".to_owned()))?
-                            as i32;
+                            .and_then(|i| i32::try_from(i).ok())
+                            .ok_or(StoryError::BadJson("Invalid pointer index".to_owned()))?;
                         pointer.index = pointer_index;
 
                         if thread_pointer_result.approximate {
@@ -427,15 +427,23 @@ impl CallStack {
     ) -> Result<(), StoryError> {
         self.threads.clear();
 
-        let j_threads = j_obj.get("threads").unwrap();
+        let j_threads = json_read::as_array(json_read::get_key(j_obj, "threads")?, "threads")?;
 
-        for j_thread_tok in j_threads.as_array().unwrap().iter() {
-            let j_thread_obj = j_thread_tok.as_object().unwrap();
+        for j_thread_tok in j_threads.iter() {
+            let j_thread_obj = json_read::as_object(j_thread_tok, "a thread")?;
             let thread = Thread::from_json(main_content_container, j_thread_obj)?;
             self.threads.push(thread);
         }
 
-        self.thread_counter = j_obj.get("threadCounter").unwrap().as_i64().unwrap() as usize;
+        // an empty thread list or an empty call stack cannot be executed
+        if self.threads.is_empty() || self.threads.iter().any(|t| t.callstack.is_empty()) {
+            return Err(StoryError::BadJson(
+                "A saved call stack needs at least one thread with one element".to_owned(),
+            ));
+        }
+
+        self.thread_counter =
+            json_read::as_usize(json_read::get_key(j_obj, "threadCounter")?, "threadCounter")?;
         self.start_of_root = Pointer::start_of(main_content_container.clone()).clone();
 
         Ok(())
